@@ -13,11 +13,14 @@ pub static F_PANIC: AtomicBool = AtomicBool::new(false);
 pub static F_CONSUMING: AtomicBool = AtomicBool::new(false);
 pub static F_ELIDED: AtomicBool = AtomicBool::new(false);
 pub static F_HARNESS_DEREF: AtomicBool = AtomicBool::new(false);
+/// An object was destroyed only because a stale record (elided unadopt) made the
+/// documented orphan test condemn it (finding K1); later memory faults follow from it.
+pub static F_STALE_DESTRUCTION: AtomicBool = AtomicBool::new(false);
 pub static F_QUIET: AtomicBool = AtomicBool::new(false);
 pub static STEP: AtomicU32 = AtomicU32::new(0);
 
 pub fn reset_flags() {
-    for f in [&F_SCRIPT, &F_PANIC, &F_CONSUMING, &F_ELIDED, &F_HARNESS_DEREF] {
+    for f in [&F_SCRIPT, &F_PANIC, &F_CONSUMING, &F_ELIDED, &F_HARNESS_DEREF, &F_STALE_DESTRUCTION] {
         f.store(false, Relaxed);
     }
     STEP.store(0, Relaxed);
@@ -160,6 +163,8 @@ pub fn emit_raw(kind: &str, cause: &str, msg: &str, addr: u64) {
     if F_QUIET.load(Relaxed) {
         return;
     }
+    let safety = is_memory_kind(kind) || matches!(kind, "double-destruction" | "corrupt-value");
+    let cause = if safety && F_ELIDED.load(Relaxed) && F_STALE_DESTRUCTION.load(Relaxed) { "stale-record-explains-orphan" } else { cause };
     let mut props: [&'static str; 6] = [""; 6];
     let np = attribute(kind, &mut props);
     let mut b = [0u8; 24];
